@@ -128,7 +128,7 @@ def handle (line : String) : String :=
       let srcok := (field fields "src") = some (hexOf src) && unparse d tm = src
       let res := lex cfg d (findStart d) src
       let free := delimFree d tm
-      s!"{case}\ttok={showRes res}\tspec={hexOf (specRender cfg vmark bmark tm)}\tfree={if free then 1 else 0}\tsrcok={if srcok then 1 else 0}"
+      s!"{case}\ttok={showRes res}\tspec={hexOf (specRender cfg vmark bmark tm)}\tfree={if free then 1 else 0}\tgood={if goodDelims d then 1 else 0}\tsrcok={if srcok then 1 else 0}"
     | _, _, _ => s!"{case}\tbad-case"
   | ["line", tlk, fam, _nl, _lines] =>
     match parseCfg tlk, parseFam fam, (field fields "src").bind unhex with
